@@ -7,7 +7,7 @@ import traceback
 
 
 def registry():
-    from .props import build, c03, c06, c10, c11, c14, c15, c17, graph, history, static, types
+    from .props import build, c03, c06, c09, c10, c11, c14, c15, c17, graph, history, static, types
 
     reg = {}
     for p in ("C01", "C02", "C07"):
@@ -23,6 +23,7 @@ def registry():
     reg["C10"] = c10.run
     reg["C11"] = c11.run
     reg["C17"] = c17.run
+    reg["C09"] = c09.run
     reg["C13"] = types.run
     reg["C19"] = build.run
     for p in ("C04", "C05", "C20"):
